@@ -25,12 +25,104 @@ import (
 	"github.com/smartcontractkit/chainlink-ccip/pluginconfig"
 )
 
-const (
-	vC04Dest = cciptypes.ChainSelector(900)
-	vC04N    = 4
-)
+const vC04Dest = cciptypes.ChainSelector(900)
 
 var vC04Sources = []cciptypes.ChainSelector{5, 7}
+
+// the DON of one history: size, F of the role DON, per-chain f and designated reader sets (home-chain config), the
+// Byzantine oracles, and the honest destination readers 0,1,2 that compute the outcome and take transmission turns.
+//   n4  : 4 oracles, F = 1, f = 1 everywhere (f_dest = 2 in class fdest2), destination read by all, a source possibly not by one
+//   n7  : 7 oracles, F = 2, f_dest = 1 read by 0..3 only, sources with f in {1,2} read by 3f+1 .. 7 oracles
+//   n10 : 10 oracles, F = 3, f_dest = 1 read by 0..3 only, sources with f in {2,3} read by 3f+1 .. 10 oracles
+// Byzantine oracles: at most F in all, at most f_dest among the destination readers, at most f_src among the readers of
+// each source (a colluder too many is left out of that source's reader set).
+type vC04Shape struct {
+	n, F    int
+	f       map[cciptypes.ChainSelector]int
+	readers map[cciptypes.ChainSelector][]int
+	byz     []int
+	rounds  int
+}
+
+func (s *vC04Shape) reads(ch cciptypes.ChainSelector, id int) bool {
+	for _, o := range s.readers[ch] {
+		if o == id {
+			return true
+		}
+	}
+	return false
+}
+func (s *vC04Shape) isByz(id int) bool {
+	for _, o := range s.byz {
+		if o == id {
+			return true
+		}
+	}
+	return false
+}
+func (s *vC04Shape) peers(ch cciptypes.ChainSelector) []libocrtypes.PeerID {
+	var out []libocrtypes.PeerID
+	for _, o := range s.readers[ch] {
+		out = append(out, vPeer(o))
+	}
+	return out
+}
+
+// big DON (n in {7, 10}): f_dest = 1 < f_src for at least one source
+func vC04BigShape(r *vRand, n, rounds int) (*vC04Shape, string) {
+	F := (n - 1) / 3
+	sh := &vC04Shape{n: n, F: F, f: map[cciptypes.ChainSelector]int{vC04Dest: 1}, readers: map[cciptypes.ChainSelector][]int{vC04Dest: {0, 1, 2, 3}}, rounds: rounds}
+	cls := fmt.Sprintf("n%d", n)
+	// Byzantine oracles: usually F of them, the highest ids; sometimes one of them is the destination reader 3
+	nb := vPick(r, []int{F, F, F, F - 1, 0})
+	for k := 0; k < nb; k++ {
+		sh.byz = append(sh.byz, n-1-k)
+	}
+	if nb > 0 && r.Chance(1, 2) {
+		sh.byz[nb-1] = 3
+	}
+	cls += fmt.Sprintf("-byz%d", nb)
+	for i, ch := range vC04Sources {
+		f := F - r.Intn(2) // F or F-1
+		if i == 0 && n == 7 {
+			f = 2
+		}
+		if i == 0 && n == 10 {
+			f = vPick(r, []int{3, 3, 2})
+		}
+		sh.f[ch] = f
+		// readers: everybody, or 3f+1 .. n-1 of them; Byzantine readers of this source limited to f
+		drop := map[int]bool{}
+		nbz := 0
+		for _, b := range sh.byz {
+			if nbz < f {
+				nbz++
+			} else {
+				drop[b] = true
+			}
+		}
+		want := n
+		if 3*f+1 < n && r.Bool() {
+			want = r.Range(3*f+1, n-1)
+		}
+		perm := r.Perm(n)
+		for _, o := range perm {
+			if n-len(drop) <= want {
+				break
+			}
+			if !drop[o] && !sh.isByz(o) {
+				drop[o] = true
+			}
+		}
+		for o := 0; o < n; o++ {
+			if !drop[o] {
+				sh.readers[ch] = append(sh.readers[ch], o)
+			}
+		}
+		cls += fmt.Sprintf("-f%d:%d/%d", ch, f, len(sh.readers[ch]))
+	}
+	return sh, cls
+}
 
 // the ground truth the oracles read from
 type vC04World struct {
@@ -93,35 +185,30 @@ type vC04Oracle struct {
 	failNS bool   // next NextSeqNum call fails
 	errKind int   // rotates the kind of the scripted error (plain, deadline, cancelled)
 	failMs bool   // next MsgsBetweenSeqNums call fails
+	failCh map[cciptypes.ChainSelector]bool // this round every MsgsBetweenSeqNums call for the chain fails (reader storm)
 }
 
-// noRead: per source chain the one oracle that does not read it (-1: everybody reads it); with f = 1 per chain every
-// chain keeps its 3 = 2f+1 designated readers, the destination is read by everybody
-// fDest: the destination's f in the home-chain config (1; 2 in the "fdest2" histories, where f_dest differs from the
-// source chains' f = 1: off-ramp next numbers are destination data and need 2*f_dest+1 = 5 reporters — with four
-// oracles none is ever agreed and nothing is selected; before fixes/F26.patch the source chains' 2*1+1 = 3 decided)
-func vC04NewOracle(w *vC04World, id int, maxTree uint64, noRead map[cciptypes.ChainSelector]int, fDest int) *vC04Oracle {
-	o := &vC04Oracle{id: id}
+// the home-chain config every oracle sees is the shape's: per chain f and designated readers. (In the n4 class
+// "fdest2" the destination's f is 2 != f_src = 1: off-ramp next numbers are destination data and need 2*f_dest+1 = 5
+// reporters — with four oracles none is ever agreed and nothing is selected; before fixes/F26.patch the source
+// chains' 2*1+1 = 3 decided.)
+func vC04NewOracle(w *vC04World, id int, maxTree uint64, sh *vC04Shape) *vC04Oracle {
+	o := &vC04Oracle{id: id, failCh: map[cciptypes.ChainSelector]bool{}}
 	hc := vNewHomeChain()
 	m := map[commontypes.OracleID]libocrtypes.PeerID{}
-	var peers []libocrtypes.PeerID
-	for i := 0; i < vC04N; i++ {
+	for i := 0; i < sh.n; i++ {
 		m[commontypes.OracleID(i)] = vPeer(i)
-		peers = append(peers, vPeer(i))
 	}
-	hc.SetChain(vC04Dest, fDest, peers)
+	hc.SetChain(vC04Dest, sh.f[vC04Dest], sh.peers(vC04Dest))
 	for _, ch := range vC04Sources {
-		var readers []libocrtypes.PeerID
-		for i := 0; i < vC04N; i++ {
-			if noRead[ch] != i {
-				readers = append(readers, vPeer(i))
-			}
-		}
-		hc.SetChain(ch, 1, readers)
+		hc.SetChain(ch, sh.f[ch], sh.peers(ch))
 	}
 	hc.OCR = reader.ActiveAndCandidate{ActiveConfig: reader.OCR3ConfigWithMeta{ConfigDigest: [32]byte{1}}, CandidateConfig: reader.OCR3ConfigWithMeta{ConfigDigest: [32]byte{2}}}
 	rd := &vCCIPReader{
 		NextSeqNumFn: func(chains []cciptypes.ChainSelector) ([]cciptypes.SeqNum, error) {
+			if !sh.reads(vC04Dest, id) {
+				return nil, fmt.Errorf("chain %d: %w", vC04Dest, readerpkg.ErrContractReaderNotFound)
+			}
 			if o.failNS {
 				o.failNS = false
 				o.errKind++
@@ -134,14 +221,17 @@ func vC04NewOracle(w *vC04World, id int, maxTree uint64, noRead map[cciptypes.Ch
 			return out, nil
 		},
 		ExpectedNextFn: func(src, dst cciptypes.ChainSelector) (cciptypes.SeqNum, error) {
-			if noRead[src] == id {
+			if !sh.reads(src, id) {
 				return 0, fmt.Errorf("chain %d: %w", src, readerpkg.ErrContractReaderNotFound)
 			}
 			return cciptypes.SeqNum(w.logLen[src] + 1), nil // latest, not necessarily finalized
 		},
 		MsgsFn: func(chain cciptypes.ChainSelector, r cciptypes.SeqNumRange) ([]cciptypes.Message, error) {
-			if noRead[chain] == id {
+			if !sh.reads(chain, id) {
 				return nil, fmt.Errorf("chain %d: %w", chain, readerpkg.ErrContractReaderNotFound)
+			}
+			if o.failCh[chain] {
+				return nil, vErrNext()
 			}
 			if o.failMs {
 				o.failMs = false
@@ -171,7 +261,7 @@ func vC04NewOracle(w *vC04World, id int, maxTree uint64, noRead map[cciptypes.Ch
 	}
 	o.p = NewPlugin(1, m, cfg, vC04Dest, rd, nil, mocks.NewCommitPluginJSONReportCodec(), mocks.NewMessageHasher(),
 		mocks.NullLogger, hc, nil, nil, nil,
-		ocr3types.ReportingPluginConfig{F: 1, N: vC04N, OracleID: commontypes.OracleID(id), ConfigDigest: [32]byte{1}, MaxDurationQuery: time.Second})
+		ocr3types.ReportingPluginConfig{F: sh.F, N: sh.n, OracleID: commontypes.OracleID(id), ConfigDigest: [32]byte{1}, MaxDurationQuery: time.Second})
 	o.p.discoveryProcessor = nil
 	return o
 }
@@ -222,80 +312,171 @@ func TestVerif_C04_history(t *testing.T) {
 			w.finalLen[ch] = w.logLen[ch]
 		}
 		maxTree := uint64(vPick(r, []int{2, 4, 256}))
-		byz := r.Bool() // oracle 3 lies in this history
 		cls := fmt.Sprintf("tree%d", maxTree)
-		if byz {
-			cls += "-byz"
+		var sh *vC04Shape
+		big := 0
+		switch hi % 5 {
+		case 3:
+			big = 7
+		case 4:
+			big = 10
 		}
-		// role assignment of this history: in two histories out of three some source chain is not read by one oracle
-		noRead := map[cciptypes.ChainSelector]int{}
-		for _, ch := range vC04Sources {
-			noRead[ch] = -1
-			if r.Chance(1, 2) {
-				noRead[ch] = r.Intn(vC04N)
+		if big == 0 {
+			// ---- the four-oracle DON: f = 1 everywhere, oracle 3 may lie, a source chain may lack one reader
+			sh = &vC04Shape{n: 4, F: 1, f: map[cciptypes.ChainSelector]int{vC04Dest: 1}, readers: map[cciptypes.ChainSelector][]int{vC04Dest: {0, 1, 2, 3}}, rounds: rounds}
+			if r.Bool() { // oracle 3 lies in this history
+				sh.byz = []int{3}
+				cls += "-byz"
 			}
-		}
-		if hi%3 == 0 {
+			// role assignment: in two histories out of three some source chain is not read by one oracle
 			for _, ch := range vC04Sources {
-				noRead[ch] = -1
+				noRead := -1
+				if r.Chance(1, 2) {
+					noRead = r.Intn(4)
+				}
+				if hi%3 == 0 {
+					noRead = -1
+				}
+				sh.f[ch] = 1
+				for o := 0; o < 4; o++ {
+					if o != noRead {
+						sh.readers[ch] = append(sh.readers[ch], o)
+					}
+				}
+				if noRead >= 0 {
+					cls += fmt.Sprintf("-role%d!%d", noRead, ch)
+				}
 			}
-		}
-		for _, ch := range vC04Sources {
-			if noRead[ch] >= 0 {
-				cls += fmt.Sprintf("-role%d!%d", noRead[ch], ch)
+			if hi%8 == 5 {
+				sh.f[vC04Dest] = 2
+				cls += "-fdest2"
 			}
+		} else {
+			// ---- a role DON with a small destination committee and larger source committees (f_dest < f_src)
+			bigRounds := rounds * 2 / 3
+			if big == 10 {
+				bigRounds = rounds / 2
+			}
+			var c string
+			sh, c = vC04BigShape(r, big, bigRounds)
+			cls += "-" + c
 		}
-		fDest := 1
-		if hi%8 == 5 {
-			fDest = 2
-			cls += "-fdest2"
+		faultDen := 10 // per oracle and round: 1/faultDen chance of a failing destination read / source read
+		lossDen := 12  // ... of a lost observation
+		if big > 0 {
+			faultDen, lossDen = 30, 40
 		}
-		oracles := make([]*vC04Oracle, vC04N)
+		oracles := make([]*vC04Oracle, sh.n)
 		for i := range oracles {
-			oracles[i] = vC04NewOracle(w, i, maxTree, noRead, fDest)
+			oracles[i] = vC04NewOracle(w, i, maxTree, sh)
 			oracles[i].lag = uint64(r.Intn(3))
+			if big > 0 && r.Chance(2, 3) {
+				oracles[i].lag = 0
+			}
 		}
 		var prev ocr3types.Outcome
 		var pending []vC04Pending
 		transmits, reportsMade, diverged := 0, 0, 0
-		for rd := 0; rd < rounds; rd++ {
+		for rd := 0; rd < sh.rounds; rd++ {
 			// ---- fault injection for this round
 			for _, o := range oracles {
-				o.failNS = r.Chance(1, 10)
-				o.failMs = r.Chance(1, 10)
+				o.failNS = r.Chance(1, faultDen)
+				o.failMs = r.Chance(1, faultDen)
+				for ch := range o.failCh {
+					delete(o.failCh, ch)
+				}
+			}
+			// what the previous outcome asks for: the intervals of a building round
+			var selected []plugintypes.ChainRange
+			if po, err := decodeOutcome(prev); err == nil && int(po.MerkleRootOutcome.OutcomeType) == 1 {
+				selected = po.MerkleRootOutcome.RangesSelectedForReport
+			}
+			// reader storm (big DONs, building rounds): the source reads of one selected chain fail on all honest
+			// readers but a few — 0, 2*f_dest, 2*f_dest+1, 2*f_src or 2*f_src+1 of them keep working —, so that the honest
+			// support for the true root falls below 2*f_src+1 while the colluders (up to f_src >= 2*f_dest+1) stay
+			stormCh := cciptypes.ChainSelector(0)
+			stormKeep := -1
+			collude, forgeCh := 5, vC04Sources[0]
+			if big > 0 {
+				collude = vPick(r, []int{0, 0, 1, 2, 3, 4, 5})
+				// the attack the per-chain threshold is there for: a selected chain whose colluding readers number at least
+				// 2*f_dest+1 (possible only when f_src >= 2*f_dest+1), the honest support for its true root cut below
+				// 2*f_dest+1, all colluders reporting the same forged root
+				var targets []cciptypes.ChainSelector
+				for _, cr := range selected {
+					nb := 0
+					for _, b := range sh.byz {
+						if sh.reads(cr.ChainSel, b) {
+							nb++
+						}
+					}
+					if nb >= 2*sh.f[vC04Dest]+1 {
+						targets = append(targets, cr.ChainSel)
+					}
+				}
+				switch {
+				case len(targets) > 0 && r.Chance(1, 2):
+					stormCh = targets[r.Intn(len(targets))]
+					stormKeep = r.Intn(2*sh.f[vC04Dest] + 1)
+					collude = r.Intn(2)
+				case len(selected) > 0 && r.Chance(1, 3):
+					stormCh = selected[r.Intn(len(selected))].ChainSel
+					fd, fs := sh.f[vC04Dest], sh.f[stormCh]
+					stormKeep = vPick(r, []int{0, 2 * fd, 2*fd + 1, 2 * fs, 2*fs + 1})
+				}
+				if stormCh != 0 {
+					forgeCh = stormCh
+					var honest []int
+					for _, o := range sh.readers[stormCh] {
+						if !sh.isByz(o) {
+							honest = append(honest, o)
+						}
+					}
+					for k, idx := range r.Perm(len(honest)) {
+						if k >= stormKeep {
+							oracles[honest[idx]].failCh[stormCh] = true
+						}
+					}
+				} else {
+					forgeCh = vC04Sources[r.Intn(len(vC04Sources))]
+				}
 			}
 			octx := ocr3types.OutcomeContext{SeqNr: uint64(rd + 1), PreviousOutcome: prev}
-			leader := oracles[r.Intn(vC04N)]
+			leader := oracles[r.Intn(sh.n)]
 			q, err := leader.p.Query(ctx, octx)
 			if err != nil {
 				q = nil
 			}
 			var aos []types.AttributedObservation
 			for _, o := range oracles {
-				if o.id != 0 && r.Chance(1, 12) {
+				if o.id != 0 && r.Chance(1, lossDen) {
 					continue // this oracle's observation is lost
 				}
 				ob, err := o.p.Observation(ctx, octx, q)
 				if err != nil {
 					continue
 				}
-				if byz && o.id == vC04N-1 {
-					ob = vC04Lie(r, ob)
+				if sh.isByz(o.id) {
+					if big == 0 || r.Chance(1, 5) {
+						ob = vC04Lie(r, ob, 2*sh.f[forgeCh]+1) // on its own
+					} else {
+						ob = vC04Collude(ob, sh, o.id, collude, forgeCh, selected, w)
+					}
 				}
 				ao := types.AttributedObservation{Observation: ob, Observer: commontypes.OracleID(o.id)}
 				if oracles[0].p.ValidateObservation(ctx, octx, q, ao) == nil {
 					aos = append(aos, ao)
 				}
 			}
-			if len(aos) >= 3 {
+			if len(aos) >= 2*sh.F+1 {
 				perm := r.Perm(len(aos))
-				sh := make([]types.AttributedObservation, len(aos))
+				shuf := make([]types.AttributedObservation, len(aos))
 				for i, p := range perm {
-					sh[i] = aos[p]
+					shuf[i] = aos[p]
 				}
 				var outs [][]byte
 				for _, o := range oracles[:3] {
-					out, err := o.p.Outcome(ctx, octx, q, sh)
+					out, err := o.p.Outcome(ctx, octx, q, shuf)
 					if err != nil {
 						out = []byte("ERR")
 					}
@@ -305,7 +486,7 @@ func TestVerif_C04_history(t *testing.T) {
 					diverged++
 				}
 				if string(outs[0]) != "ERR" {
-					vC04EmitRound(rsink, cls, hi, rd, prev, q, sh, outs[0], maxTree)
+					vC04EmitRound(rsink, cls, hi, rd, prev, q, shuf, outs[0], maxTree, sh.F)
 					prev = outs[0]
 					reps, err := oracles[0].p.Reports(ctx, uint64(rd+1), prev)
 					if err == nil {
@@ -320,10 +501,12 @@ func TestVerif_C04_history(t *testing.T) {
 								roots = append(roots, vC04Root{ch: mr.ChainSel, s: uint64(mr.SeqNumsRange.Start()), e: uint64(mr.SeqNumsRange.End()), root: mr.MerkleRoot})
 							}
 							by := r.Intn(3)
-							// prefer a transmitter that does not read one of the report's source chains
+							// prefer a transmitter (honest destination readers 0,1,2) that does not read one of the report's source chains
 							for _, rt := range roots {
-								if nr := noRead[rt.ch]; nr >= 0 && nr < 3 && r.Bool() {
-									by = nr
+								for nr := 0; nr < 3; nr++ {
+									if !sh.reads(rt.ch, nr) && r.Bool() {
+										by = nr
+									}
 								}
 							}
 							acc, err := oracles[by].p.ShouldAcceptAttestedReport(ctx, uint64(rd+1), rp.ReportWithInfo)
@@ -332,8 +515,10 @@ func TestVerif_C04_history(t *testing.T) {
 								if r.Chance(1, 4) { // a second transmitter holds the same report (duplicate send)
 									by2 := (by + 1) % 3
 									for _, rt := range roots {
-										if nr := noRead[rt.ch]; nr >= 0 && nr < 3 && nr != by && r.Bool() {
-											by2 = nr
+										for nr := 0; nr < 3; nr++ {
+											if !sh.reads(rt.ch, nr) && nr != by && r.Bool() {
+												by2 = nr
+											}
 										}
 									}
 									pending = append(pending, vC04Pending{rep: rp.ReportWithInfo, roots: roots, by: by2, readyAt: rd + r.Intn(6)})
@@ -412,7 +597,7 @@ func TestVerif_C04_history(t *testing.T) {
 		}
 		fsink.Emit("C04_final", cls, len(w.landed) > 1,
 			cPair(cPair(vC04CursorCoq(initCursor), landed), cTup(cList(commitsCoq), cList(finalCur), cNi(diverged))),
-			map[string]any{"history": hi, "rounds": rounds, "byzantine": byz, "maxTree": maxTree, "reports": reportsMade, "transmit_true": transmits,
+			map[string]any{"history": hi, "rounds": sh.rounds, "n": sh.n, "F": sh.F, "f": fmt.Sprint(sh.f), "readers": fmt.Sprint(sh.readers), "byzantine": fmt.Sprint(sh.byz), "maxTree": maxTree, "reports": reportsMade, "transmit_true": transmits,
 				"landed": len(w.landed), "commits": fmt.Sprint(w.commits), "log": fmt.Sprint(w.logLen), "outcome_divergences": diverged})
 	}
 }
@@ -446,7 +631,7 @@ func vC04OutcomeCoq(ob []byte) (string, bool) {
 	return cApp("mkOutcome", cZ(int64(m.OutcomeType)), ranges, roots, off, cN(uint64(m.ReportTransmissionCheckAttempts)), "[]", "(0%N, 0%N)"), true
 }
 
-func vC04EmitRound(sink *vSink, cls string, hi, rd int, prev, q []byte, aos []types.AttributedObservation, out []byte, maxTree uint64) {
+func vC04EmitRound(sink *vSink, cls string, hi, rd int, prev, q []byte, aos []types.AttributedObservation, out []byte, maxTree uint64, F int) {
 	prevC, ok1 := vC04OutcomeCoq(prev)
 	outC, ok2 := vC04OutcomeCoq(out)
 	dq, err := DecodeCommitPluginQuery(q)
@@ -477,12 +662,65 @@ func vC04EmitRound(sink *vSink, cls string, hi, rd int, prev, q []byte, aos []ty
 		fch := cMap(ks, func(k cciptypes.ChainSelector) string { return cPair(cN(uint64(k)), cZ(int64(m.FChain[k]))) })
 		obsC = append(obsC, cPair(cN(uint64(ao.Observer)), cApp("mkObs", roots, sc(m.OnRampMaxSeqNums), sc(m.OffRampNextSeqNums), "rmn_none", fch)))
 	}
-	in := cTup(cZ(1), cN(uint64(vC04Dest)), cN(3), cN(maxTree), prevC, cBool(dq.MerkleRootQuery.RetryRMNSignatures), cList(obsC))
-	sink.Emit("C04_round", cls, len(obsC) >= 3, cPair(in, outC), map[string]any{"history": hi, "round": rd, "observations": len(obsC)})
+	// F of the role DON of this history; the per-chain f values are in the observations' fChain maps;
+	// 3 = MaxReportTransmissionCheckAttempts of the offchain config above
+	in := cTup(cZ(int64(F)), cN(uint64(vC04Dest)), cN(3), cN(maxTree), prevC, cBool(dq.MerkleRootQuery.RetryRMNSignatures), cList(obsC))
+	sink.Emit("C04_round", cls, len(obsC) >= 2*F+1, cPair(in, outC), map[string]any{"history": hi, "round": rd, "F": F, "observations": len(obsC)})
 }
 
-// a Byzantine observation: decodable, different
-func vC04Lie(r *vRand, ob []byte) []byte {
+// the colluders' observation of this round: every colluder applies the same forgery [kind] to its own observation.
+//   0,1 (building): the same forged root for every selected interval of chain forgeCh (all selected chains for kind 1)
+//                   — built from the previous outcome's intervals, so that it does not depend on the colluder's reads
+//   2: on-ramp latest of forgeCh advanced by 100;  3: off-ramp next of forgeCh advanced by 2 (destination readers only
+//   get it through validation);  4: says nothing;  5: honest this round
+func vC04Collude(ob []byte, sh *vC04Shape, id, kind int, forgeCh cciptypes.ChainSelector, selected []plugintypes.ChainRange, w *vC04World) []byte {
+	o, err := DecodeCommitPluginObservation(ob)
+	if err != nil {
+		return ob
+	}
+	m := &o.MerkleRootObs
+	switch kind {
+	case 0, 1:
+		if len(selected) == 0 {
+			break
+		}
+		var out []cciptypes.MerkleRootChain
+		for _, mr := range m.MerkleRoots { // honest roots of the chains that are not forged
+			if kind == 0 && mr.ChainSel != forgeCh {
+				out = append(out, mr)
+			}
+		}
+		for _, cr := range selected {
+			if (kind == 1 || cr.ChainSel == forgeCh) && sh.reads(cr.ChainSel, id) {
+				out = append(out, cciptypes.MerkleRootChain{ChainSel: cr.ChainSel, OnRampAddress: []byte{byte(cr.ChainSel), 0xAD}, SeqNumsRange: cr.SeqNumRange,
+					MerkleRoot: cciptypes.Bytes32{0xBA, 0xD0, byte(cr.ChainSel), byte(cr.SeqNumRange.Start()), byte(cr.SeqNumRange.End())}})
+			}
+		}
+		m.MerkleRoots = out
+	case 2:
+		for i := range m.OnRampMaxSeqNums {
+			if m.OnRampMaxSeqNums[i].ChainSel == forgeCh {
+				m.OnRampMaxSeqNums[i].SeqNum = cciptypes.SeqNum(w.logLen[forgeCh] + 100)
+			}
+		}
+	case 3:
+		for i := range m.OffRampNextSeqNums {
+			if m.OffRampNextSeqNums[i].ChainSel == forgeCh {
+				m.OffRampNextSeqNums[i].SeqNum = cciptypes.SeqNum(w.cursor[forgeCh] + 2)
+			}
+		}
+	case 4:
+		m.MerkleRoots, m.OnRampMaxSeqNums, m.OffRampNextSeqNums = nil, nil, nil
+	}
+	b, err := o.Encode()
+	if err != nil {
+		return ob
+	}
+	return b
+}
+
+// a Byzantine observation of one oracle on its own: decodable, different; reps = 2f+1 for the multi-vote shapes
+func vC04Lie(r *vRand, ob []byte, reps int) []byte {
 	o, err := DecodeCommitPluginObservation(ob)
 	if err != nil {
 		return ob
@@ -495,7 +733,7 @@ func vC04Lie(r *vRand, ob []byte) []byte {
 			forged := rs[0]
 			forged.MerkleRoot[0] ^= 0xFF
 			var out []cciptypes.MerkleRootChain
-			for k := 0; k < 3; k++ {
+			for k := 0; k < reps; k++ {
 				out = append(out, forged)
 				if len(rs) >= 2 {
 					out = append(out, rs[1+k%(len(rs)-1)])
@@ -509,7 +747,7 @@ func vC04Lie(r *vRand, ob []byte) []byte {
 			forged := ns[0]
 			forged.SeqNum += cciptypes.SeqNum(1 + r.Intn(3))
 			var out []plugintypes.SeqNumChain
-			for k := 0; k < 3; k++ {
+			for k := 0; k < reps; k++ {
 				out = append(out, forged)
 				if len(ns) >= 2 {
 					out = append(out, ns[1+k%(len(ns)-1)])
@@ -522,7 +760,7 @@ func vC04Lie(r *vRand, ob []byte) []byte {
 			forged := ns[0]
 			forged.SeqNum += 7
 			var out []plugintypes.SeqNumChain
-			for k := 0; k < 3; k++ {
+			for k := 0; k < reps; k++ {
 				out = append(out, forged)
 				if len(ns) >= 2 {
 					out = append(out, ns[1+k%(len(ns)-1)])
